@@ -38,6 +38,22 @@ impl BlockDecoder {
             return Ok(());
         }
 
+        // The FEC libraries panic when asked for a source block larger than their code supports:
+        // K_max = 8192 (RFC 5053 section 5.1.2), K'_max = 56403 (RFC 6330 section 5.1.2)
+        let max_source_symbols: Option<u32> = match oti.fec_encoding_id {
+            oti::FECEncodingID::Raptor => Some(8192),
+            oti::FECEncodingID::RaptorQ => Some(56403),
+            _ => None,
+        };
+        if let Some(max) = max_source_symbols {
+            if nb_source_symbols > max {
+                return Err(FluteError::new(format!(
+                    "Source block of {} symbols, the maximum is {}",
+                    nb_source_symbols, max
+                )));
+            }
+        }
+
         match oti.fec_encoding_id {
             oti::FECEncodingID::NoCode => {
                 let codec = nocode::NoCodeDecoder::new(nb_source_symbols as usize);
